@@ -100,7 +100,7 @@ def draw_transport(rng, wire_len, spans, kinds=("file", "socket"), ends=("close"
     end = rng.choice(ends)
     timeout = rng.choice((None, 2.0, 5.0)) if end != "timeout" else rng.choice((2.0, 5.0))
     return {
-        "kind": "socket",
+        "kind": kind,
         "segments": sched.timed_segments(rng, sizes, timeout),
         "timeout": timeout,
         "end": end,
